@@ -1,6 +1,7 @@
 import Cfi.Files
 import Spec.C05
 import Props.C05
+import Proofs.StripLaw
 /-!
 C06 — property theorems.
 
@@ -337,8 +338,8 @@ theorem recStable_of_laws (r : RegDef) (d : List Val) (hlen : r.fields.length = 
     (hdis : Cfi.Disjoint r.fields)
     (hlaw : ∀ fv ∈ r.fields.zip d, RenderLaw fv.1 fv.2)
     (hnl : ∀ fv ∈ r.fields.zip d, ∀ t, renderText fv.1 fv.2 = .ok t → ¬ '\n' ∈ t)
-    (hsome : ∃ fv ∈ r.fields.zip d, ∀ t, canon fv.1 fv.2 t ≠ .none) : RecStable r d := by
-  intro _
+    (hsome : RegDef.isEmpty d = false → ∃ fv ∈ r.fields.zip d, ∀ t, canon fv.1 fv.2 t ≠ .none) : RecStable r d := by
+  intro hne0
   obtain ⟨rs, hrs⟩ := laws_all2 _ hlaw
   have hr : All2 (fun (fv : Field × Val) r => rendersTo fv.1 fv.2 r) (r.fields.zip d) rs := by
     generalize r.fields.zip d = zs at hrs
@@ -355,7 +356,7 @@ theorem recStable_of_laws (r : RegDef) (d : List Val) (hlen : r.fields.length = 
     · obtain ⟨fv, hfv, hren⟩ := hr.of_mem_right ht
       exact hnl fv hfv t hren.1 hc
   · rw [readPos_written r.fields d rs _ hlen hdis hrs hw]
-    obtain ⟨fv, hfv, hc⟩ := hsome
+    obtain ⟨fv, hfv, hc⟩ := hsome hne0
     obtain ⟨i, hi, heq⟩ := List.getElem_of_mem hfv
     have hrl : rs.length = (r.fields.zip d).length := (All2.length_eq hrs).symm
     have hi' : i < ((r.fields.zip d).zip rs).length := by
@@ -367,5 +368,175 @@ theorem recStable_of_laws (r : RegDef) (d : List Val) (hlen : r.fields.length = 
     rw [List.getElem_zip] at this
     simp only [heq] at this
     exact hc _ this
+
+end Props.C06
+
+namespace Props.C06
+open Cfi Cfi.Text Spec.C05 Spec.C06 Props.C05 Props.C01 Spec.C01
+
+/-! ### files of integer and literal registers: no hypothesis about the records left -/
+
+/-- every value an integer / literal field reads from a line obeys its law, if
+the integers read fit their fields when printed -/
+theorem law_of_read (f : Field) (l : List Char) (hk : f.kind = .int ∨ f.kind = .lit)
+    (hgeo : f.stop = f.size + f.start)
+    (hfit : ∀ n, f.readText l = .int n → (PyInt.pyStr n).length ≤ f.size ∧ n.natAbs < 10 ^ 4300) :
+    RenderLaw f (f.readText l) := by
+  rcases hk with hk | hk
+  · cases hp : PyInt.pyInt (slice l f.start f.stop) with
+    | none =>
+      have hv : f.readText l = .none := by simp [Field.readText, parseText, hk, hp]
+      rw [hv]
+      exact law_null f .none rfl hgeo (by rw [hk]; exact blankLaw_int _)
+    | some n =>
+      have hv : f.readText l = .int n := by simp [Field.readText, parseText, hk, hp]
+      obtain ⟨h1, h2⟩ := hfit n hv
+      rw [hv]
+      exact law_int f n hk hgeo h1 h2
+  · have hv : f.readText l = .str (strip (slice l f.start f.stop)) := by
+      simp [Field.readText, parseText, hk]
+    rw [hv]
+    apply law_lit f _ hk hgeo
+    · have h1 := length_strip_le (slice l f.start f.stop)
+      have h2 := length_slice_le l f.start f.stop
+      omega
+    · exact ⟨0, by simp [strip_idem]⟩
+
+theorem mem_zip_readPos (fs : List Field) (l : List Char) (fv : Field × Val)
+    (h : fv ∈ fs.zip (readPos fs l)) : fv.1 ∈ fs ∧ fv.2 = fv.1.readText l := by
+  induction fs with
+  | nil => simp [readPos] at h
+  | cons f fs ih =>
+    simp only [readPos, List.map_cons, List.zip_cons_cons, List.mem_cons] at h
+    rcases h with rfl | h
+    · exact ⟨by simp, rfl⟩
+    · obtain ⟨h1, h2⟩ := ih h
+      exact ⟨by simp [h1], h2⟩
+
+/-- **C06 for files of integer / literal registers, for every text**: no premise
+about the records is left — only that the integers found in `x` fit their
+fields when printed (the property's "parsed values are representable"). -/
+theorem main_int_lit (regs : List RegDef) (x : List Char) (hamb : unambiguous regs = true)
+    (hdel : ∀ r ∈ regs, r.delimiter = .none)
+    (hkinds : ∀ r ∈ regs, ∀ f ∈ r.fields, (f.kind = .int ∨ f.kind = .lit) ∧ f.stop = f.size + f.start)
+    (hfit : ∀ l ∈ splitLines x, ∀ r ∈ regs, ∀ f ∈ r.fields, ∀ n, f.readText l = .int n →
+      (PyInt.pyStr n).length ≤ f.size ∧ n.natAbs < 10 ^ 4300) :
+    ∃ y, Spec.C06.rw regs x = some y ∧ Spec.C06.rw regs y = some y ∧ Spec.C06.holds regs x ⟨y, y⟩ = true := by
+  apply main regs x hamb _ hdel
+  intro l hl j r hc hj
+  have hr : r ∈ regs := List.mem_of_getElem? hj
+  have hline : ¬ '\n' ∈ l.dropLast := by
+    -- lines of `splitLines` have no inner newline
+    have hok := splitLines_linesOk x
+    have : ∀ (ls : List (List Char)), LinesOk ls → ∀ l ∈ ls, ¬ '\n' ∈ l.dropLast := by
+      intro ls
+      induction ls with
+      | nil => intro _ l h; simp at h
+      | cons a ls ih =>
+        intro h l hm
+        cases ls with
+        | nil =>
+          simp only [List.mem_singleton] at hm; subst hm; exact h.2
+        | cons b ls =>
+          rcases List.mem_cons.mp hm with rfl | hm
+          · exact h.2.2.1
+          · exact ih h.2.2.2 l hm
+    exact this _ hok l hl
+  have hlaw : ∀ fv ∈ r.fields.zip (readPos r.fields l), RenderLaw fv.1 fv.2 := by
+    intro fv hfv
+    obtain ⟨h1, h2⟩ := mem_zip_readPos r.fields l fv hfv
+    rw [h2]
+    obtain ⟨hk, hgeo⟩ := hkinds r hr fv.1 h1
+    exact law_of_read fv.1 l hk hgeo (hfit l hl r hr fv.1 h1)
+  have hf := regFacts regs hamb j r hj
+  refine ⟨hdel r hr, ?_, ?_⟩
+  · obtain ⟨rs, hrs⟩ := laws_all2 _ hlaw
+    refine ⟨rs, ?_⟩
+    generalize r.fields.zip (readPos r.fields l) = zs at hrs
+    induction hrs with
+    | nil => exact .nil
+    | cons h _ ih => exact .cons h.1 ih
+  · apply recStable_of_laws r _ (by simp [length_readPos]) hf.hdis hlaw
+    · -- no rendering contains a newline
+      intro fv hfv t ht
+      obtain ⟨h1, h2⟩ := mem_zip_readPos r.fields l fv hfv
+      obtain ⟨hk, hgeo⟩ := hkinds r hr fv.1 h1
+      rw [h2] at ht
+      rcases hk with hk | hk
+      · cases hp : PyInt.pyInt (slice l fv.1.start fv.1.stop) with
+        | none =>
+          have hv : fv.1.readText l = .none := by simp [Field.readText, parseText, hk, hp]
+          rw [hv, render_null fv.1 .none rfl] at ht
+          injection ht with ht; subst ht
+          simp
+        | some n =>
+          have hv : fv.1.readText l = .int n := by simp [Field.readText, parseText, hk, hp]
+          rw [hv] at ht
+          simp only [renderText, renderRaw, renderFull, hk, Val.isNull, Bool.false_eq_true, if_false,
+            Except.map] at ht
+          injection ht with ht; subst ht
+          intro hm
+          simp only [rjust, List.mem_append, List.mem_replicate] at hm
+          rcases hm with hm | hm
+          · exact absurd hm.2 (by decide)
+          · -- the text of an integer has digits and a sign only
+            cases n with
+            | ofNat k =>
+              have := natDigits_isDigit k '\n' hm
+              exact absurd this (by decide)
+            | negSucc k =>
+              simp only [PyInt.pyStr, List.mem_cons] at hm
+              rcases hm with hm | hm
+              · exact absurd hm (by decide)
+              · have := natDigits_isDigit (k + 1) '\n' hm
+                exact absurd this (by decide)
+      · have hv : fv.1.readText l = .str (strip (slice l fv.1.start fv.1.stop)) := by
+          simp [Field.readText, parseText, hk]
+        rw [hv] at ht
+        simp only [renderText, renderRaw, renderFull, hk, Val.isNull, Bool.false_eq_true, if_false,
+          Except.map] at ht
+        injection ht with ht; subst ht
+        intro hm
+        simp only [ljust, List.mem_append, List.mem_replicate] at hm
+        rcases hm with hm | hm
+        · exact strip_slice_no_newline l _ _ hline hm
+        · exact absurd hm.2 (by decide)
+    · -- a non-empty record has a value whose canonical form is not None
+      intro hne
+      simp only [RegDef.isEmpty, Bool.eq_false_iff, ne_eq, List.all_eq_true, beq_iff_eq] at hne
+      have : ∃ v ∈ readPos r.fields l, v ≠ Val.none := by
+        apply Classical.byContradiction
+        intro hcon
+        apply hne
+        intro v hv
+        apply Classical.byContradiction
+        intro hvn
+        exact hcon ⟨v, hv, hvn⟩
+      obtain ⟨v, hv, hvn⟩ := this
+      obtain ⟨i, hi, hvi⟩ := List.getElem_of_mem hv
+      have hif : i < r.fields.length := by simpa [length_readPos] using hi
+      refine ⟨(r.fields[i], v), ?_, ?_⟩
+      · rw [← hvi]
+        have : (r.fields.zip (readPos r.fields l))[i]'(by simp [length_readPos]; exact hif) =
+            (r.fields[i], (readPos r.fields l)[i]) := by simp
+        rw [← this]
+        exact List.getElem_mem _
+      · intro t
+        obtain ⟨hk, _⟩ := hkinds r hr r.fields[i] (List.getElem_mem hif)
+        have hvread : v = (r.fields[i]).readText l := by
+          rw [← hvi]; simp [readPos]
+        rcases hk with hk | hk
+        · cases hp : PyInt.pyInt (slice l (r.fields[i]).start (r.fields[i]).stop) with
+          | none =>
+            have : v = .none := by rw [hvread]; simp [Field.readText, parseText, hk, hp]
+            exact absurd this hvn
+          | some n =>
+            have : v = .int n := by rw [hvread]; simp [Field.readText, parseText, hk, hp]
+            subst this
+            simp [canon, hk, Val.isNull]
+        · have : v = .str (strip (slice l (r.fields[i]).start (r.fields[i]).stop)) := by
+            rw [hvread]; simp [Field.readText, parseText, hk]
+          subst this
+          simp [canon, hk, Val.isNull]
 
 end Props.C06
